@@ -146,6 +146,7 @@ func (fc *FnCtx) assign(st *State, lhs ast.Expr, v Val) {
 			fc.unsupp(l.Pos(), "assignment to selector %s", exprText(l))
 		}
 		v = fc.convertAssign(st, v, sel.Type())
+		fc.bumpCall(st, l.Sel.Name) // `counts <field>`: assignments to a field are counted like calls
 		if r := fc.root(); r == fc && r.ct != nil {
 			for i, cl := range r.ct.WritePre[l.Sel.Name] {
 				env := &SpecEnv{fc: fc, st: st, old: r.entry, scope: map[string]Val{"$value": v}, oldScope: fc.paramsEntry, pkg: fc.ctPkg(), useVars: true}
@@ -670,6 +671,15 @@ func (fc *FnCtx) havocLoop(st *State, body ast.Node, extraVars []types.Object) {
 			if c, ok := x.(*ast.CallExpr); ok {
 				if g, ok := fc.calleeOf(c).(*types.Func); ok {
 					called[g.Name()] = true
+				} else {
+					called[exprText(c.Fun)] = true
+				}
+			}
+			if as, ok := x.(*ast.AssignStmt); ok {
+				for _, l := range as.Lhs {
+					if se, ok := ast.Unparen(l).(*ast.SelectorExpr); ok {
+						called[se.Sel.Name] = true
+					}
 				}
 			}
 			return true
@@ -1305,6 +1315,13 @@ func (fc *FnCtx) chanSend(st *State, ch Val, v Val, s *ast.SendStmt) []Outcome {
 			env.scope[inv.Var] = v
 			c := fc.safeSpec(env, inv.Inv.E, inv.Inv.Text)
 			fc.assert(st, "chaninv", exprText(s.Chan), s.Pos(), c.T, "value sent satisfies the channel invariant")
+		}
+	}
+	if r := fc.root(); r.ct != nil && s != nil {
+		for i, cl := range r.ct.SendPre[exprText(s.Chan)] {
+			env := &SpecEnv{fc: fc, st: st, old: r.entry, scope: map[string]Val{"$value": v}, oldScope: fc.paramsEntry, pkg: fc.ctPkg(), useVars: true}
+			g := fc.safeSpec(env, cl.E, cl.Text)
+			fc.assertNamed(st, "emit", "send."+exprText(s.Chan)+"."+clauseName(cl, i), g.T, "whenever a value is sent on "+exprText(s.Chan)+": "+cl.Text, s.Pos())
 		}
 	}
 	open := sel(fc.comp(st, chanOpenKey, chanOpenSort), ch.T)
